@@ -585,7 +585,15 @@ class SVGPath(SVGShape, SVGCommandSeq):
             # if we modified cmd to pass *very* close to subpath start snap to it
             # eliminates issues with not-quite-closed shapes due float imprecision
             next_pos = _next_pos(curr_pos, new_cmd, new_cmd_args)
-            if next_pos != subpath_start and next_pos.almost_equals(subpath_start):
+            if (
+                next_pos != subpath_start
+                and next_pos.almost_equals(subpath_start)
+                # an arc that starts at the subpath start must not end exactly on it:
+                # an arc with coincident end points is omitted, the whole ellipse would vanish
+                and not (
+                    new_cmd.upper() == "A" and curr_pos.almost_equals(subpath_start)
+                )
+            ):
                 new_cmd, new_cmd_args = _move_endpoint(
                     curr_pos, new_cmd, new_cmd_args, subpath_start
                 )
